@@ -6,6 +6,7 @@ import ImathVerif.Props.C14
 import ImathVerif.Props.C17
 import ImathVerif.Props.C04
 import ImathVerif.Props.C05
+import ImathVerif.Props.C08
 import ImathVerif.Props.C18
 import ImathVerif.Props.C02
 import ImathVerif.Props.C03
